@@ -34,6 +34,15 @@ def random_fieldset(rng, syms, maxlen=4, allow_skip=True, p_empty=0.2):
     chosen = [rng.choice(syms) for _ in range(n)]
     if rng.random() < 0.5:
         names = rng.sample(FIELD_NAMES, n) if n <= len(FIELD_NAMES) else [f"f{i}" for i in range(n)]
+        if n >= 2 and rng.random() < 0.3:
+            # a family of field names that are prefixes of one another up to an underscore or an index — what the
+            # generated locals (`<field>_<index>`) are built from: `lo`, `lo_col`, `lo_`, `lo_0`, `lo_1`, `lo_1_0`
+            base = rng.choice(["lo", "name", "t", "x", "a"])
+            fam = [base, base + "_" + rng.choice(["col", "pos", "x"]), base + "_", base + "_0", base + "_1", base + "_1_0", base + "0", base + "__"]
+            names = [fam[0]] + rng.sample(fam[1:], min(n - 1, len(fam) - 1))
+            names = (names + [f"f{i}" for i in range(n)])[:n]
+            if rng.random() < 0.5:
+                rng.shuffle(names)
         fields = []
         for nm, s in zip(names, chosen):
             skip = allow_skip and rng.random() < 0.3
